@@ -38,4 +38,24 @@ theorem emits_wellformed (e : EncState) (hok : EncOK e) (cont : Container) (hs :
   rw [henc] at this
   exact this
 
+/-- **C18 on the source**: two `headers` arguments that stand for the same (name bytes, value bytes, sensitivity) list —
+whatever the container (list, iterator, dict), the tuple forms (2-tuple, longer tuple, `HeaderTuple`,
+`NeverIndexedHeaderTuple`) and the string types (`bytes` or `str`) — make the translated `Encoder.encode` return the same
+octets and leave the same encoder (and fail with the same class when it fails) -/
+theorem forms_interchangeable (e : EncState) (c1 c2 : Container) (hs1 hs2 : Py.Headers)
+    (h1 : ContRep c1 hs1) (h2 : ContRep c2 hs2) (hn : c1.norm = c2.norm) (huff : Bool) :
+    ∃ f0, ∀ fuel, fuel ≥ f0 →
+      dropS (Src.Encoder.encode fuel (SrcTie.absE e) hs1 huff) = dropS (Src.Encoder.encode fuel (SrcTie.absE e) hs2 huff) := by
+  obtain ⟨f1, hf1⟩ := Props.SrcEncApi.encode_is_normal_form e c1 hs1 h1 huff
+  obtain ⟨f2, hf2⟩ := Props.SrcEncApi.encode_is_normal_form e c2 hs2 h2 huff
+  refine ⟨max f1 f2, fun fuel hfu => ?_⟩
+  have a1 := hf1 fuel (by omega)
+  have a2 := hf2 fuel (by omega)
+  rw [hn] at a1
+  generalize e.encode true c2.norm huff = m at a1 a2
+  cases m with
+  | ok a => simp only [AgreeOut] at a1 a2; rw [a1, a2]
+  | err x => simp only [AgreeOut] at a1 a2; rw [a1, a2]
+  | esc x => simp only [AgreeOut] at a1 a2; rw [a1, a2]
+
 end Props.OnSourceEncApi
